@@ -115,6 +115,9 @@ structure Culture where
       persico, anno hegirae, Bahá'í (era ids 2 … 6; 0 = BCE, 1 = CE) -/
   eraNamesX : List (List Text) := []
   eraPrimaryX : List Text := []
+  /-- the case-folding table of the run for non-ASCII characters: `(c, str.lower(c))` for the characters of the culture's
+      names and of the text at hand whose lower-case form is ONE character (ASCII is folded by `asciiLower`) -/
+  fold : List (Char × Char) := []
   deriving Repr
 
 /-- template value of a LocalDateTime pattern (ISO calendar): date fields and nanosecond of day -/
